@@ -60,7 +60,7 @@ theorem C07_model_meets_spec (c : Conf) (last : Int) (evs : List Event) (h : his
       | rotCheck now => exact ih _ _ last hr' hstep hh
       | clear => exact ih _ _ last hr' hstep hh
       | restart m f en => exact ih _ _ last hr' hstep hh
-      | putConf en ivl ign => exact ih _ _ last hr' hstep hh
+      | putConf en an ivl ign => exact ih _ _ last hr' hstep hh
       | setClients tbl => exact ih _ _ last hr' hstep hh
 
 /-- Every state reached by a history whose clock moves forward satisfies the
@@ -91,7 +91,7 @@ theorem C07_inv_reachable (c : Conf) (ops : List Op) (last : Int)
     | rotCheck now => exact ih _ _ last hr' hstep hh
     | clear => exact ih _ _ last hr' hstep hh
     | restart m f en => exact ih _ _ last hr' hstep hh
-    | putConf en ivl ign => exact ih _ _ last hr' hstep hh
+    | putConf en an ivl ign => exact ih _ _ last hr' hstep hh
     | setClients tbl => exact ih _ _ last hr' hstep hh
 
 /-! ## What the operations do to the log -/
@@ -156,7 +156,7 @@ theorem C07_ring_never_full (s : State) (o : Op) (h : s.conf.fileEnabled = true 
     simp only [step, restart, List.length_nil, ringCap]
     by_cases hm : m = 0 <;> simp [hm]
     omega
-  | putConf en ivl ign =>
+  | putConf en an ivl ign =>
     simp only [step, putConf]
     split
     · exact h
@@ -346,14 +346,16 @@ section Examples
 
 /-- "192.168.1.5" -/
 private def ip1 : Bytes := [49,57,50,46,49,54,56,46,49,46,53]
+/-- "192.168.0.0" -/
+private def ip1Anon : Bytes := [49,57,50,46,49,54,56,46,48,46,48]
 /-- "My Kitchen" -/
 private def nameKitchen : Bytes := [77,121,32,75,105,116,99,104,101,110]
 
 private def ex (ts : Int) (host : Bytes) (id : Nat) (reason : Nat := 0) (isF : Bool := false) : Entry :=
-  { ts := ts, host := host, cid := [], ip := ip1, reason := reason, isFiltered := isF, id := id }
+  { ts := ts, host := host, cid := [], ip := ip1, ipAnon := ip1Anon, reason := reason, isFiltered := isF, id := id }
 
 private def conf0 : Conf :=
-  { enabled := true, fileEnabled := true, memSize := 3, ivl := 86400000000000, ignored := [],
+  { enabled := true, fileEnabled := true, memSize := 3, anonymize := false, ivl := 86400000000000, ignored := [],
     clients := [(ip1, { name := nameKitchen, ignore := false })] }
 
 /-- hosts "a.example", "b.example", "c.example" -/
